@@ -175,8 +175,10 @@ pub fn run_c15(tier: &str, seed: u64) -> Report {
             let expected = expected_failures(&mut ctx, g, o, &exp);
             for f in &expected {
               if !surfaced(f, &errs) {
-                let shape = if !f.alternatives.is_empty() && o.follow_dynamic {
+                let shape = if !f.alternatives.is_empty() && o.follow_dynamic && !f.is_dependency_target {
                   "missing-entry-not-surfaced-with-follow-dynamic"
+                } else if !f.alternatives.is_empty() && o.follow_dynamic {
+                  "missing-dependency-target-not-surfaced"
                 } else {
                   "visited-failure-not-listed"
                 };
@@ -281,8 +283,12 @@ fn verdict_check(report: &mut Report, w: &World, what: &str, o: &WOpts, verdict:
     if let Some(f) = expected.first() {
       // a reachable failure was silently skipped
       let only_missing = expected.iter().all(|f| !f.alternatives.is_empty());
-      let shape = if only_missing && o.follow_dynamic {
+      let none_dep_target = expected.iter().all(|f| !f.is_dependency_target);
+      let shape = if only_missing && o.follow_dynamic && none_dep_target {
+        // F5: only Missing entries that no followed import points at (roots, configured imports)
         "missing-entry-not-surfaced-with-follow-dynamic"
+      } else if only_missing && o.follow_dynamic {
+        "missing-dependency-target-not-surfaced"
       } else {
         "validation-ok-despite-reachable-failure"
       };
